@@ -119,6 +119,48 @@ def contract():
     )
 
 
+def open_bunch_contract():
+    """The same real function once more, with the part of the loop invariant that needs no quantifier stated on its own:
+    the OPEN bunch (the one specs are still being added to) is within both limits after every iteration, whatever the sizes
+    of the specs are (attr_n_bytes is left uninterpreted: no axiom about P / W is in scope here).  It is implied by
+    `current-limits` above; it is stated separately because its verification conditions are quantifier-free, so that a loop
+    body that lets a spec into the open bunch without comparing it against the byte limit is REFUTED with a counter-model
+    in milliseconds instead of ending in `unknown` under the quantified prefix-sum axioms."""
+    return Contract(
+        path=PATH,
+        qualname='Batch._create_bunches',
+        label='Batch._create_bunches[open-bunch-limits]',
+        types={
+            'self': 'U',
+            'job_group_specs': 'List[U]',
+            'job_specs': 'List[U]',
+            'max_bunch_bytesize': 'int',
+            'max_bunch_size': 'int',
+            'byte_specs_bunches': 'List[List[U]]',
+            'bunch': 'List[U]',
+            'result': 'List[List[U]]',
+            '.n_bytes': 'int',
+            '.spec_bytes': 'U',
+            '.typ': 'U',
+        },
+        calls={'SpecBytes': _mk_specbytes, 'orjson.dumps': _dumps},
+        loops={
+            0: LoopSpec(
+                index='k',
+                invariants=[
+                    ('open-bunch-within-count-limit', "len(bunch) <= max_bunch_size"),
+                    ('open-bunch-within-byte-limit', "bunch_n_bytes <= max_bunch_bytesize"),
+                    ('limits-positive', "max_bunch_bytesize > 0 and max_bunch_size > 0"),
+                ],
+            )
+        },
+        # when the function may refuse an input is the business of the main contract (it needs W); here every refusal is allowed
+        raises={'AssertionError': True},
+        ensures=[('limits-unchanged', "max_bunch_bytesize == old(max_bunch_bytesize) and max_bunch_size == old(max_bunch_size)")],
+        canaries=[('open-bunch-never-full', "len(bunch) < max_bunch_size")],
+    )
+
+
 def specbytes_contracts():
     init = Contract(
         path=PATH,
@@ -229,14 +271,20 @@ for n in tree.body:
 class _Orjson:
     @staticmethod
     def dumps(spec):
+        # exactly spec['n'] bytes on the wire; 'utf8' fills with two-byte characters (orjson emits raw UTF-8, so real specs
+        # with non-ASCII text have more bytes than characters)
+        if spec.get('fill') == 'utf8':
+            return ('\u00e9' * (spec['n'] // 2) + 'x' * (spec['n'] % 2)).encode('utf-8')
         return b'x' * spec['n']
-ns = {'Enum': enum.Enum, 'List': list, 'orjson': _Orjson, '__name__': 'replay'}
+import typing
+ns = {k: getattr(typing, k) for k in typing.__all__}
+ns.update({'Enum': enum.Enum, 'orjson': _Orjson, '__name__': 'replay'})
 exec(compile(ast.Module(body=keep, type_ignores=[]), 'aioclient-extract', 'exec'), ns)
 Batch = ns['Batch']; SpecType = ns['SpecType']
 def check(p):
-    sizes = p['sizes']; ng = p['n_groups']
-    groups = [{'n': s, 'i': i} for i, s in enumerate(sizes[:ng])]
-    jobs = [{'n': s, 'i': ng + i} for i, s in enumerate(sizes[ng:])]
+    sizes = p['sizes']; ng = p['n_groups']; fill = p.get('fill', 'ascii')
+    groups = [{'n': s, 'i': i, 'fill': fill} for i, s in enumerate(sizes[:ng])]
+    jobs = [{'n': s, 'i': ng + i, 'fill': fill} for i, s in enumerate(sizes[ng:])]
     try:
         bunches = Batch._create_bunches(None, groups, jobs, p['max_bytes'], p['max_size'])
     except AssertionError as e:
@@ -257,16 +305,20 @@ if p.get('search'):
     res = {'confirmed': False, 'searched': 0}
     n = 0
     done = False
-    for L in range(0, 5):
-        for sizes in itertools.product(range(0, 4), repeat=L):
-            for ng in range(0, L + 1):
-                for mb in (4, 5, 7):
-                    for ms in (1, 2, 3):
-                        n += 1
-                        q = {'n_groups': ng, 'sizes': list(sizes), 'max_bytes': mb, 'max_size': ms}
-                        r = check(q)
-                        if r['confirmed']:
-                            r['input'] = q; r['searched'] = n; res = r; done = True
+    # sizes include specs AT and ABOVE every byte limit tried (5 and 8 against 4, 5, 7): an oversized spec must be refused with
+    # the documented AssertionError wherever it stands, never packed; both fillings (bytes == characters, bytes > characters)
+    for fill in ('ascii', 'utf8'):
+        for L in range(0, 5):
+            for sizes in itertools.product((0, 1, 2, 3, 5, 8), repeat=L):
+                for ng in range(0, L + 1):
+                    for mb in (4, 5, 7):
+                        for ms in (1, 2, 3):
+                            n += 1
+                            q = {'n_groups': ng, 'sizes': list(sizes), 'max_bytes': mb, 'max_size': ms, 'fill': fill}
+                            r = check(q)
+                            if r['confirmed']:
+                                r['input'] = q; r['searched'] = n; res = r; done = True
+                            if done: break
                         if done: break
                     if done: break
                 if done: break
@@ -290,6 +342,9 @@ def build(ctx):
     eng = pyvc.Engine(ctx, contract())
     eng.replayer = make_replayer(eng)
     eng.run()
+    eng2 = pyvc.Engine(ctx, open_bunch_contract())
+    eng2.replayer = make_replayer(eng2)
+    eng2.run()
     ctx.witness_search = lambda: core.run_native(REPLAY, {'search': True})
     _filters(ctx)
     ctx.assume('orjson.dumps is an uninterpreted function of the spec (only the length of its result matters)')
